@@ -87,9 +87,11 @@ class Gen:
             return e
         if choice < 0.65 and arrs:
             a = r.choice(arrs)
-            if allow_fault and r.random() < 0.35:
+            if allow_fault and ints and r.random() < 0.35:
                 self.features.add("index-fault")
-                return ("index", V(a), self.int_expr(sc, depth - 1))      # may be out of range: specified panic
+                # may be out of range at run time: specified panic (never a constant expression: Go rejects constant
+                # indices that are out of range)
+                return ("index", V(a), ("bin", "+", V(r.choice(ints)), self.int_expr(sc, depth - 1)))
             return ("index", V(a), ("bin", "%", ("bin", "+", ("bin", "%", self.int_expr(sc, depth - 1), I(3)), I(3)), I(3)))
         if choice < 0.72 and ptrs:
             self.features.add("deref")
@@ -946,4 +948,19 @@ def fixed_cases(profile):
         f0 = {"name": pf + "f0", "params": [], "results": [], "body": [
             ("gowait", ("call", ("fn", pf + "body"), [])), ("print", [("str", "main-after")])]}
         case(100006, "goexit-survives-recovered-panic", [inner, body, f0], pf + "f0")
+        # F7: a goto loop with a defer inside a branch of a range loop, and a defer behind the range loop: the blocks are
+        # not compiled in the order in which they execute
+        pf = "c100007_"
+        dp = {"name": pf + "dp", "params": [("k", "int"), ("v", "int")], "results": [], "body": [("print", [("str", "d"), V("k"), V("v")])]}
+        f0 = {"name": pf + "f0", "params": [], "results": [], "body": [
+            ("rangeint", None, "k", I(3), [
+                ("if", ("bin", ">", V("k"), I(0)), [("print", [("str", "x"), V("k")])], [
+                    ("decl", "g", "int", I(0)),
+                    ("label", "Lc100007_1"),
+                    ("block", [("assign", [V("g")], [("bin", "+", V("g"), I(3))]),
+                               ("defer", ("call", ("fn", pf + "dp"), [I(7), V("g")]))]),
+                    ("assign", [V("g")], [("bin", "+", V("g"), I(1))]),
+                    ("if", ("bin", "<", V("g"), I(3)), [("goto", "Lc100007_1")], [])])]),
+            ("defer", ("call", ("fn", pf + "dp"), [I(9), I(0)]))]}
+        case(100007, "defer-in-goto-loop-in-branch-then-defer", [dp, f0], pf + "f0")
     return out
